@@ -31,6 +31,8 @@ fn starts() -> Vec<Start> {
         Start { name: "stdin-epoch", args: a(&["--source", "stdin"]), stdin: Some("(schema:(core:[var(Major),var(Minor),var(Patch)],extra_core:[var(Epoch),var(PreRelease),var(Post),var(Dev)],build:[]),vars:(epoch:Some(3),major:Some(1),minor:Some(2),patch:Some(3),pre_release:Some((label:Beta,number:Some(4))),post:Some(5),dev:Some(6),bumped_branch:Some(\"br\"),custom:{}))".to_string()) },
         // a pre-release at number 0 with post and dev behind it: an operation that "changes nothing" at its own level (label
         // bump to the same label, bump by 0, override to the present value) must still reset what lies below
+        // a pre-release label without a number (beta, not the default alpha): operations on the number keep the label
+        Start { name: "1.2.3-beta", args: a(&["--source", "none", "--tag-version", "1.2.3-beta"]), stdin: None },
         Start { name: "1.2.3-beta.0.post.2.dev.1", args: a(&["--source", "none", "--tag-version", "1.2.3-beta.0.post.2.dev.1"]), stdin: None },
     ]
 }
@@ -331,7 +333,7 @@ fn main() {
     cov.evaluations = cov.transitions;
     cov.traces_validated = cov.transitions;
     cov.distinct_nontrivial = all.get("model_ok");
-    cov.rule = format!("flag-instance alphabets of sizes {alpha_sizes:?} per (start version x schema) environment ({} environments: 8 start versions x 4 schemas): every subset up to size 3 (2 for the literal-heavy schema in quick) run through the real clap parser + run_version_pipeline with --output-format zerv and compared (schema + vars) with R-BUMP; permutations: all orders for subsets up to size {} and the reversed order above; invalid targets and boundary amounts enumerated per section; chaining: every single op, then every op set of size <= {} via --source stdin, model continued from the intermediate state. non-trivial = runs where the model predicts success and the full state is compared", envs.len(), if quick { 2 } else { 3 }, if quick { 1 } else { 2 });
+    cov.rule = format!("flag-instance alphabets of sizes {alpha_sizes:?} per (start version x schema) environment ({} environments: 9 start versions incl. a number-less beta pre-release x 4 schemas): every subset up to size 3 (2 for the literal-heavy schema in quick) run through the real clap parser + run_version_pipeline with --output-format zerv and compared (schema + vars) with R-BUMP; permutations: all orders for subsets up to size {} and the reversed order above; invalid targets and boundary amounts enumerated per section; chaining: every single op, then every op set of size <= {} via --source stdin, model continued from the intermediate state. non-trivial = runs where the model predicts success and the full state is compared", envs.len(), if quick { 2 } else { 3 }, if quick { 1 } else { 2 });
     cov.exhaustive = true;
     cov.samples = vec![json!({"start":"1.2.3-rc.4","schema":"standard-base-prerelease-post-dev","argv":["--bump-major","--patch","3","--bump-extra-core=~1"]}), json!({"start":"stdin-u64max","schema":"ron-literals","argv":["--bump-major=2"]}), json!({"chain":["--bump-minor"],"then":["--core=0=4"]})];
     cov.set("clause_counts", all.to_json());
